@@ -497,4 +497,31 @@ theorem mem_entries (d : Dmig) (rl cl v : Int × Int) :
   · rintro ⟨j, hj, hw, rfl, he⟩
     exact ⟨_, ⟨j, ⟨hj, hw⟩, rfl⟩, (rl, v), he, rfl⟩
 
+theorem foldl_max_spec (l : List (Int × Int)) : ∀ (a : Int),
+    a ≤ l.foldl (fun a c => max a c.1) a ∧ (∀ c ∈ l, c.1 ≤ l.foldl (fun a c => max a c.1) a) ∧
+      (l.foldl (fun a c => max a c.1) a = a ∨ ∃ c ∈ l, c.1 = l.foldl (fun a c => max a c.1) a) := by
+  induction l with
+  | nil => intro a; simp
+  | cons h t ih =>
+      intro a
+      obtain ⟨h1, h2, h3⟩ := ih (max a h.1)
+      simp only [List.foldl_cons, List.mem_cons]
+      refine ⟨by omega, ?_, ?_⟩
+      · rintro c (rfl | hc)
+        · omega
+        · exact h2 c hc
+      · rcases h3 with h3 | ⟨c, hc, hceq⟩
+        · by_cases hle : h.1 ≤ a
+          · left; rw [h3]; omega
+          · right; exact ⟨h, Or.inl rfl, by rw [h3]; omega⟩
+        · right; exact ⟨c, Or.inr hc, hceq⟩
+
+theorem form_cases (d : Dmig) : d.form = 9 ∨ d.form = 2 ∨ d.form = 6 ∨ d.form = 1 := by
+  unfold Dmig.form
+  split
+  · simp
+  · split
+    · simp
+    · split <;> simp
+
 end PyYetiVerif.Bulk
